@@ -13,7 +13,8 @@ import (
 )
 
 type msgCase struct {
-	M wm.Msg
+	M     wm.Msg
+	Spell uint64 `json:",omitempty"` // spelling of the names handed to the library (0: canonical)
 }
 
 func hexdiff(a, b []byte) string {
@@ -38,13 +39,22 @@ func checkMsg(c msgCase) error {
 	if err != nil || len(pu) > 65535 {
 		return nil // unrepresentable messages are C01's business
 	}
+	restore := wm.Spelling(c.Spell)
 	lib, err := wm.MsgToLib(m, true)
+	restore()
 	if err != nil {
 		return nil
+	}
+	if c.Spell != 0 {
+		pbt.Class("names-respelled")
 	}
 	pc, err := lib.Pack()
 	if err != nil {
 		return pbt.Errf("Pack with compression failed: %v", err)
+	}
+	// the same octets when the caller supplies a buffer that only just holds the compressed form
+	if pb, err := lib.PackBuffer(make([]byte, len(pc)+int(m.ID%14))); err != nil || !bytes.Equal(pb, pc) {
+		return pbt.Errf("PackBuffer with compression into a buffer of %d octets (compressed size %d): err=%v, same octets as Pack: %v", len(pc)+int(m.ID%14), len(pc), err, bytes.Equal(pb, pc))
 	}
 	lib.Compress = false
 	pun, err := lib.Pack()
@@ -186,7 +196,11 @@ func genMsg(t *rapid.T) msgCase {
 			m.An = append([]wm.Rec{filler}, m.An...)
 		}
 	}
-	return msgCase{M: m}
+	c := msgCase{M: m}
+	if rapid.IntRange(0, 2).Draw(t, "respell") == 0 {
+		c.Spell = rapid.Uint64().Draw(t, "spell")
+	}
+	return c
 }
 
 func init() {
